@@ -286,6 +286,9 @@ func init() {
 			}
 			return wrapInt(types.Int, t)
 		},
+		"Spawn":      extSpawn,
+		"Yield":      extYield,
+		"RunThreads": extRunThreads,
 		"B2I": func(fr *frame, args []value) value {
 			return wrapInt(types.Int, mkIte(boolTerm(args[0]), mkBV(64, 1), mkBV(64, 0)))
 		},
@@ -958,7 +961,8 @@ func init() {
 		"(*sync.RWMutex).RUnlock": extNoop,
 		"(*sync.Once).Do":         extOnceDo,
 
-		"os.Getenv": func(fr *frame, args []value) value { return "" },
+		"os.Getenv":  func(fr *frame, args []value) value { return "" },
+		"os.Environ": func(fr *frame, args []value) value { return []value(nil) },
 
 		"internal/bytealg.IndexByteString": extBytealgIndexByteString,
 		"internal/bytealg.IndexByte":       extBytealgIndexByte,
